@@ -2407,6 +2407,10 @@ impl Evaluator {
         if galois_elt & 1 == 0 || galois_elt > m {
             panic!("[Invalid argument] Galois element not valid");
         }
+        if !plain.is_ntt_form() && !context_data.is_ckks() {
+            // The automorphism permutes all N coefficients: pad a shorter plaintext with zeros first.
+            plain.resize(coeff_count);
+        }
         let mut temp = vec![0; plain.data().len()];
         
         // DO NOT CHANGE EXECUTION ORDER OF FOLLOWING SECTION
